@@ -71,6 +71,13 @@ class OStr:
     def split(self, sep=None, maxsplit=-1):
         if maxsplit != -1:
             raise Unsupported("OStr.split(maxsplit)")
+        rep = getattr(self, "_replaced", None)
+        if sep not in self._split and rep is not None and rep[2] == sep and isinstance(sep, str) and sep:
+            # the separator was put in by replace(old, sep): the fields of the original, one of them cut in two at `old`
+            parts = list(rep[0].split(sep))
+            victim = parts[-1]
+            parts[-1:] = [OStr(victim.name + ".before", parent=self), OStr(victim.name + ".after", parent=self)]
+            self._split[sep] = parts
         if sep not in self._split:
             E = eng()
             if sep is None:
@@ -115,8 +122,41 @@ class OStr:
             self._intval = eng().int("%s.intvalue" % self.name, 0, None)
         return self._intval
 
+    def _obs_contains(self, lit):
+        """Does the string contain the literal `lit`? (a forked observation, remembered)"""
+        if not self._obs_nonempty():
+            return False
+        seen = self.__dict__.setdefault("_has", {})
+        if lit not in seen:
+            seen[lit] = eng().choice("%s.has[%s]" % (self.name, lit if lit.isprintable() else repr(lit)), 2) == 1
+        return seen[lit]
+
+    def __contains__(self, lit):
+        if not isinstance(lit, str):
+            raise Unsupported("%r in OStr" % (lit,))
+        return lit == "" or self._obs_contains(lit)
+
+    def replace(self, old, new, count=-1):
+        if not isinstance(old, str) or not isinstance(new, str) or old == "" or count != -1:
+            raise Unsupported("OStr.replace(%r, %r)" % (old, new))
+        if old == new or not self._obs_contains(old):
+            return self
+        r = OStr("%s.replace(%s)" % (self.name, old if old.isprintable() else repr(old)), nonempty=None if new == "" else True, parent=self)
+        r._replaced = (self, old, new)
+        return r
+
     def strip(self, *a):
-        raise Unsupported("OStr.strip")
+        if a and a[0] is not None:
+            raise Unsupported("OStr.strip(chars)")
+        if not self._obs_nonempty():
+            return self
+        if getattr(self, "_outer_ws", None) is None:
+            self._outer_ws = eng().choice("%s.outer-whitespace" % self.name, 2) == 1
+        if not self._outer_ws:
+            return self
+        if getattr(self, "_stripped", None) is None:
+            self._stripped = OStr(self.name + ".stripped", parent=self)
+        return self._stripped
 
     def __len__(self):
         raise Unsupported("len(OStr)")
